@@ -386,8 +386,18 @@ def project_mode(rng, n: int, res: core.Result):
     drv.close()
     root = core.scratch_dir("c01p")
     work = []
+    doubled = {}
     for i, (cfg, eff, files) in enumerate(metas):
-        work.append((i, [(name, leans[3 * i + k]["text"]) for k, (name, _l) in enumerate(files)], cfg, str(root)))
+        texts = []
+        for k, (name, _l) in enumerate(files):
+            text = leans[3 * i + k]["text"]
+            # a file may hold the same functions twice (same names: methods of re-declared classes, re-assigned callbacks):
+            # they are separate functions, each judged on its own
+            if rng.random() < 0.35:
+                doubled[(i, k)] = len(text.split("\n"))
+                text = text + "\n" + text
+            texts.append((name, text))
+        work.append((i, texts, cfg, str(root)))
     try:
         if True:
             impls = core.pmap(impl_project, work, procs=16, chunksize=2)
@@ -399,10 +409,11 @@ def project_mode(rng, n: int, res: core.Result):
         exp_m, exp_s = [], []
         for k, (name, lang) in enumerate(files):
             for f in leans[3 * i + k]["fns"]:
-                if f["reported"]:
-                    exp_m.append([name, f["line"], msg(f["name"], f["depth"])])
-                if f["specReported"]:
-                    exp_s.append([name, f["line"], msg(f["name"], f["doc"])])
+                for off in ([0, doubled[(i, k)]] if (i, k) in doubled else [0]):
+                    if f["reported"]:
+                        exp_m.append([name, f["line"] + off, msg(f["name"], f["depth"])])
+                    if f["specReported"]:
+                        exp_s.append([name, f["line"] + off, msg(f["name"], f["doc"])])
         exp_m.sort()
         exp_s.sort()
         if len(set(eff.values())) > 1:
